@@ -161,6 +161,46 @@ def spec_sign(I: int, J: int, signature: List[int]) -> int:
     return s
 
 
+def basis_maps(basis):
+    """canon2bin / bin2canon as kingdon builds them for a custom basis: bit j <-> j-th listed grade-1 name."""
+    vecs = [b[1:] for b in basis if len(b) == 2]
+    vec2bin = {v: 1 << j for j, v in enumerate(vecs)}
+    c2b = {}
+    for b in basis:
+        k = 0
+        for ch in b[1:]:
+            k ^= vec2bin[ch]
+        c2b[b] = k
+    b2c = {k: n for n, k in sorted(c2b.items(), key=lambda x: x[1])}
+    lowest = min(int(v, 16) for v in vecs) if vecs else 0
+    return c2b, b2c, {v: int(v, 16) - lowest for v in vecs}
+
+
+def spec_sign_basis(I: int, J: int, b2c, metric_pos, signature) -> int:
+    """Sign of blade(I) * blade(J) expressed in blade(I ^ J), every blade being the ordered product of the
+    generators in its spelling (normal ordering of the concatenated words)."""
+    word = list(b2c[I][1:] + b2c[J][1:])
+    target = b2c[I ^ J][1:]
+    swaps = 0
+    sign = 1
+    i = 0
+    while i < len(word):
+        ch = word[i]
+        try:
+            j = word.index(ch, i + 1)
+        except ValueError:
+            i += 1
+            continue
+        swaps += j - i - 1
+        del word[j]
+        del word[i]
+        sign *= signature[metric_pos[ch]]
+    pos = {c: k for k, c in enumerate(target)}
+    seq = [pos[c] for c in word]
+    swaps += sum(1 for a in range(len(seq)) for b in range(a + 1, len(seq)) if seq[a] > seq[b])
+    return -sign if swaps % 2 else sign
+
+
 def grade(k: int) -> int:
     return bin(k).count("1")
 
@@ -231,7 +271,7 @@ def poly_of_value(v) -> Optional[Poly]:
     return None
 
 
-def sign_table_obj(signature: List[int], log: Optional[list] = None, lazy: bool = False) -> Obj:
+def sign_table_obj(signature: List[int], log: Optional[list] = None, lazy: bool = False, sign_fn=None) -> Obj:
     """Stand-in for Algebra.signs.  lazy=True models the DefaultKeyDict used above six dimensions: entries exist
     only after they were requested by subscription (dict.get / `in` do not trigger __missing__)."""
     cache = {}
@@ -257,7 +297,7 @@ def sign_table_obj(signature: List[int], log: Optional[list] = None, lazy: bool 
         n = 1 << len(signature)
         if not (0 <= key[0] < n and 0 <= key[1] < n):
             raise Raised("KeyError")
-        return spec_sign(key[0], key[1], signature)
+        return sign_fn(key[0], key[1]) if sign_fn is not None else spec_sign(key[0], key[1], signature)
     o = Obj("dict", {}, {"get": get}, getitem=getitem)
 
     def compare(op, other):
